@@ -393,6 +393,16 @@ def do_scalars_exhaustive(ctx, part, parts):
                 scalar_bin(ctx, b, n, size, "exhaustive")
             scalar_unbin(ctx, b, format(n, "b").rjust(n % 13, "0"), "exhaustive")
         ctx.hit("scalar_exhaustive")
+    # the truncation boundary of every size, both strictness settings, both byte orders
+    if part == 0:
+        for size in range(0, 6):
+            for k in (1, 2, 3, 255, 256, 257):
+                for d in (-2, -1, 0, 1, 2):
+                    n = k * 256 ** size + d
+                    for strict in (False, True):
+                        for reverse in (False, True):
+                            scalar_bytify(ctx, b, n, size, reverse, strict if n >= 0 else False, "boundary")
+                            ctx.hit("scalar_boundary")
     # all byte strings <= 2 bytes
     for v in range(part, 65536 + 256 + 1, parts):
         if v == 0:
